@@ -100,7 +100,26 @@ OPS = [
     ("maximum", lambda r, a, b: numpoly.maximum(a, b)),
     ("set_dimensions", lambda r, a, b: numpoly.set_dimensions(a, len(a.names) + 1)),
     ("astype", lambda r, a, b: a.astype(float)),
+    ("monomial", lambda r, a, b: rand_monomial(r)),
+    ("variable", lambda r, a, b: numpoly.variable(r.randint(1, 4))),
 ]
+
+
+def rand_monomial(r):
+    """monomial() with scalar or per-dimension bounds, with and without an explicit dimension count / names."""
+    form = r.randrange(6)
+    if form == 0:
+        return numpoly.monomial([r.randint(1, 3) for _ in range(r.randint(2, 3))])
+    if form == 1:
+        return numpoly.monomial(r.randint(0, 2), [r.randint(2, 4) for _ in range(r.randint(2, 3))], graded=r.random() < 0.5)
+    if form == 2:
+        return numpoly.monomial([r.randint(1, 3) for _ in range(3)], dimensions=r.choice([1, 2, 3, None]))
+    if form == 3:
+        return numpoly.monomial(0, [r.randint(1, 3), r.randint(1, 3)], dimensions=r.choice([None, 2, ("q1", "q3")]))
+    if form == 4:
+        return numpoly.monomial(r.randint(0, 1), r.randint(2, 4), dimensions=r.choice([1, 2, 3]),
+                                cross_truncation=r.choice([1.0, 2.0, numpy.inf]), reverse=r.random() < 0.5)
+    return numpoly.monomial(r.randint(2, 4), dimensions=r.choice([("q2",), ("q0", "q10"), 2]))
 
 
 def run(report, tier, seed):
@@ -139,11 +158,24 @@ def run(report, tier, seed):
         if not isinstance(res, numpoly.ndpoly):
             continue
         stats[name] = stats.get(name, 0) + 1
-        bad = wf_facts(res) + rebuild_facts(res)
+        try:
+            bad = wf_facts(res)
+        except Exception as exc:  # noqa: BLE001   the object is too malformed to be taken apart
+            bad = [f"reading the result's attributes raised {type(exc).__name__}: {exc}"]
+        if not bad:
+            bad = rebuild_facts(res)
+
+        def safe(x):
+            try:
+                return gen.describe(x)
+            except Exception:  # noqa: BLE001   a malformed polynomial may not even print
+                return f"<{type(x).__name__} shape={getattr(x, 'shape', '?')} names={getattr(x, 'names', '?')} keys={list(getattr(x, 'keys', []))[:6]}>"
         if bad:
-            viol.append(("wf:" + name, f"result of {name} on {gen.describe(a)}, {gen.describe(b)} is not well-formed: {bad[0]}",
-                         {"op": name, "a": gen.describe(a), "b": gen.describe(b), "facts": bad}))
-        report.sample({"op": name, "result": gen.describe(res)[:200]}, cap=3)
+            viol.append(("wf:" + name, f"result of {name} on {safe(a)}, {safe(b)} is not well-formed: {bad[0]}"
+                                       + (f" (result: {safe(res)})" if name in ("monomial", "variable") else ""),
+                         {"op": name, "a": safe(a), "b": safe(b), "facts": bad}))
+        else:
+            report.sample({"op": name, "result": safe(res)[:200]}, cap=3)
     # ---- (2) attribute triples through the constructor vs the model ----------------------------
     for k in range(n_attr):
         D = rng.randint(1, 3)
